@@ -1,4 +1,5 @@
 import Amgcl.Proofs.Transfer
+import Amgcl.Proofs.PointwiseLift
 import Amgcl.Proofs.CoarseningChecks
 import Mathlib.Algebra.Order.Ring.Defs
 /-!
@@ -232,19 +233,13 @@ theorem pointwise_block_one (norm : K → K) (epsSq : K) (m : Nat) (hm : m ≤ 1
     pointwiseAggregates norm epsSq 1 m A = plainAggregates epsSq A :=
   pointwise_block1 norm epsSq m hm A
 
-/-- **The unknowns of one grid node travel together** (`_partial`, see below).  With `block_size = b > 1` the result
-of `pointwise_aggregates` is the lift of the plain aggregates `pw` of the reduced matrix
-`Ap = pointwise_matrix(A, b)`: `count = b · pw.count` and `id[ip·b + k] = b · pw.id[ip] + k` — so scalar row `ip·b+k`
-is in aggregate `b·a + k` iff node `ip` is in node-aggregate `a`, a removed node has only negative ids, and by
-`plain_aggregates_partition` applied to `Ap` the lifted aggregates partition the rows with a strong node
-connection, non-empty and contiguously numbered.
-
-Full statement of the property clause (not proved in Lean, checked on every explored input by the Kronecker-lift
-oracle of `harness/h_coarsening.cpp`): for `A` with sorted rows, `pointwiseMatrix norm (A ⊗ I_b) b = |A|`
-(entrywise `norm`), hence `pointwiseAggregates (A ⊗ I_b) b = lift_b (plainAggregates |A|)` including the expanded
-strength flags.  Missing: the induction over the `while(!done)` rounds of `pointwise_matrix` on a Kronecker product
-and the `takeWhile/dropWhile` walk of the flag expansion. -/
-theorem pointwise_lift_partial (norm : K → K) (epsSq : K) (b m : Nat) (hb : b ≠ 1) (hm : m ≤ 1) (A : CRS K)
+/-- **The unknowns of one grid node travel together**, for every matrix (not only Kronecker products).  With
+`block_size = b > 1` the result of `pointwise_aggregates` is the lift of the plain aggregates `pw` of the reduced
+matrix `Ap = pointwise_matrix(A, b)`: `count = b · pw.count` and `id[ip·b + k] = b · pw.id[ip] + k` — so scalar
+row `ip·b+k` is in aggregate `b·a + k` iff node `ip` is in node-aggregate `a`, a removed node has only negative
+ids, and by `plain_aggregates_partition` applied to `Ap` the lifted aggregates partition the rows with a strong
+node connection, non-empty and contiguously numbered. -/
+theorem pointwise_nodes_travel_together (norm : K → K) (epsSq : K) (b m : Nat) (hb : b ≠ 1) (hm : m ≤ 1) (A : CRS K)
     (agg : Aggregates) (h : pointwiseAggregates norm epsSq b m A = .ok agg) :
     ∃ Ap pw, pointwiseMatrix norm A b = .ok Ap ∧ plainAggregates epsSq Ap = .ok pw ∧
       agg.count = pw.count * b ∧ agg.id.size = Ap.nrows * b ∧
@@ -252,13 +247,48 @@ theorem pointwise_lift_partial (norm : K → K) (epsSq : K) (b m : Nat) (hb : b 
         agg.id.getD ia 0 = (b : Int) * pw.id.getD (ia / b) 0 + ((ia % b : Nat) : Int) :=
   pointwise_blocks norm epsSq b m hb hm A agg h
 
+omit [Mul K] in
+/-- `pointwise_matrix(A ⊗ I_b, b)` is `A` with `math::norm` applied entrywise (same pattern), for every matrix with
+sorted rows, every `b ≥ 1` and every irreflexive `<` (used by `std::max`). -/
+theorem pointwise_matrix_kron (hirr : ∀ x : K, ¬ x < x) (norm : K → K) (A : CRS K) (b : Nat) (hb : 0 < b)
+    (hs : A.sortedb = true) :
+    pointwiseMatrix norm (kronI A b) b = .ok (mapVals norm A) :=
+  pointwiseMatrix_kron hirr norm A b hb (sortedP_of_sortedb A hs)
+
+/-- **Pointwise lift.**  Coarsening `A ⊗ I_b` with `block_size = b > 1` equals the lifted coarsening of `|A|`
+(`A` with `math::norm` applied entrywise — the same matrix as far as `plain_aggregates` is concerned whenever the
+diagonal entries have one sign): if `plain_aggregates(|A|)` returns `pw`, then `pointwise_aggregates(A ⊗ I_b, b)`
+returns `count = b · pw.count`, `id[i·b+k] = b · pw.id[i] + k` and the strength flags of scalar row `i·b+k` are
+those of node row `i`; if `plain_aggregates(|A|)` throws `empty_level`, so does `pointwise_aggregates(A ⊗ I_b, b)`.
+For every matrix with sorted rows, every `eps_strong`, every `b > 1`. -/
+theorem pointwise_lift (hirr : ∀ x : K, ¬ x < x) (norm : K → K) (epsSq : K) (b : Nat) (hb : 1 < b) (m : Nat)
+    (hm : m ≤ 1) (A : CRS K) (hs : A.sortedb = true) :
+    (∀ pw, plainAggregates epsSq (mapVals norm A) = .ok pw →
+      ∃ agg, pointwiseAggregates norm epsSq b m (kronI A b) = .ok agg ∧
+        agg.count = pw.count * b ∧ agg.id.size = A.nrows * b ∧ agg.strong.size = A.nrows * b ∧
+        ∀ i k, i < A.nrows → k < b →
+          agg.id.getD (i * b + k) 0 = (b : Int) * pw.id.getD i 0 + (k : Int) ∧
+          agg.strong.getD (i * b + k) [] = pw.strong.getD i []) ∧
+    (plainAggregates epsSq (mapVals norm A) = .emptyLevel →
+      pointwiseAggregates norm epsSq b m (kronI A b) = .emptyLevel) :=
+  ⟨fun pw hpw => pointwise_lift_ok hirr norm epsSq b hb m hm A (sortedP_of_sortedb A hs) pw hpw,
+   fun hpw => pointwise_lift_empty hirr norm epsSq b hb m A (sortedP_of_sortedb A hs) hpw⟩
+
 end pointwise
 
--- non-vacuity of `pointwise_lift_partial`: (1D Laplacian, n = 3) ⊗ I₂ with block_size 2 — the lift of `[0,0,0]`
+-- non-vacuity: (1D Laplacian, n = 3) ⊗ I₂ with block_size 2 — the lift of `[0,0,0]`
 example : pointwiseAggregates (fun x : Int => if x < 0 then -x else x) 0 2 0
     ⟨6, #[[(0,2),(2,-1)],[(1,2),(3,-1)],[(0,-1),(2,2),(4,-1)],[(1,-1),(3,2),(5,-1)],[(2,-1),(4,2)],[(3,-1),(5,2)]]⟩ =
     .ok ⟨2, #[[false,true],[false,true],[true,false,true],[true,false,true],[true,false],[true,false]],
       #[0,1,0,1,0,1]⟩ := by decide +kernel
+-- non-vacuity of `pointwise_lift`: the same matrix is `kronI A 2`, `A` has sorted rows, `<` on `Int` is irreflexive
+example :
+    let A : CRS Int := ⟨3, #[[(0,2),(1,-1)],[(0,-1),(1,2),(2,-1)],[(1,-1),(2,2)]]⟩
+    A.sortedb = true ∧ (kronI A 2).rows = #[[(0,2),(2,-1)],[(1,2),(3,-1)],[(0,-1),(2,2),(4,-1)],
+      [(1,-1),(3,2),(5,-1)],[(2,-1),(4,2)],[(3,-1),(5,2)]] ∧
+    plainAggregates (0 : Int) (mapVals (fun x => if x < 0 then -x else x) A) =
+      .ok ⟨1, #[[false,true],[true,false,true],[true,false]], #[0,0,0]⟩ ∧ (∀ x : Int, ¬ x < x) :=
+  ⟨by decide +kernel, by decide +kernel, by decide +kernel, fun x => Int.lt_irrefl x⟩
 
 /-! ## V-grade (verified checker) parts: Ruge–Stuben row sums, null-space branch of the tentative prolongation
 
